@@ -5,6 +5,7 @@ import z3
 from .values import *
 from . import reduce as R
 from . import smt
+from . import derive
 
 SRC_ROOT = os.environ.get("MDPAX_SRC", "/repo/src")
 
@@ -36,6 +37,7 @@ class Interp:
     def reset_path(self, decisions=None):
         self.pc = []; self.decisions = list(decisions or []); self.dpos = 0; self.pending = []
         self.obligations = []; self.stack = []; self.lib_used = set(); self.fstrings = []
+        self.derived_used = set()            # attributes of scenario objects obtained by construction-constant derivation on this path (pyvc/derive.py)
     def assume(self, c):
         c = toz3(c)
         if not z3.is_true(z3.simplify(c)): self.pc.append(c)
@@ -54,9 +56,9 @@ class Interp:
             cb = concrete_bool(v)
             if cb is not None: return cb
             s = z3.Solver(); s.set("timeout", 5000); s.add(*self.pc)
-            s.push(); s.add(z3.Not(v)); r1 = s.check(); s.pop()
+            s.push(); s.add(z3.Not(v)); r1 = smt.guarded_check(s, 5000); s.pop()
             if r1 == z3.unsat: return True
-            s.push(); s.add(v); r2 = s.check(); s.pop()
+            s.push(); s.add(v); r2 = smt.guarded_check(s, 5000); s.pop()
             if r2 == z3.unsat: return False
             if self.dpos < len(self.decisions): d = self.decisions[self.dpos]
             else:
@@ -352,7 +354,8 @@ class Interp:
             if node is None: raise PyRaise(EXC["AttributeError"], a)
             return Func(node, k.module.globals, o.obj, self.qualname(k, a), k.module, k)
         if isinstance(o, Obj):
-            if a in o.attrs: self.note_read(o, a); return o.attrs[a]
+            if a in o.attrs: self.note_read(o, a); derive.log_read(self, o, a); return o.attrs[a]
+            if a in getattr(o, "derived", ()): derive.log_read(self, o, a); return o.derived[a]
             if isinstance(o.cls, ClassRef):
                 k, node = self.find_method(o.cls, a)
                 if node is not None:
@@ -367,7 +370,9 @@ class Interp:
             if isinstance(o.cls, ClassRef) and self.assigned_somewhere(o.cls, a):
                 # the class does assign this attribute (e.g. in a constructor phase), but the contract's hand-built pre-state does not provide it:
                 # the CONTRACT no longer covers the code -> engine limitation (undecided / bounded fallback), never a property violation
-                raise Unsupported(f"scenario pre-state of {o.label} lacks attribute '{a}', which the class assigns: the contract must be extended")
+                # ... unless it is a construction constant whose value the real source determines (pyvc/derive.py)
+                derive.log_read(self, o, a)
+                return derive.derive_attr(self, o, a)
             if not isinstance(o.cls, ClassRef) and o.label in ("config", "cfg"):
                 # hand-built partial stub of a configuration object: a field the code now reads is missing from the CONTRACT's scenario
                 raise Unsupported(f"scenario stub {o.label} lacks field '{a}': the contract must be extended")
